@@ -94,6 +94,8 @@ pub fn run(ctx: &Ctx, out: &mut CaseOut) {
                 Err(e) => {
                     let sig = if solver_name(choice) == "slg" && rec.nonground_coinductive && matches!(ans, MAnswer::Unique(..) | MAnswer::Definite(..)) && e.contains("definitely false instance") {
                         Some("slg:coinductive-nonground:unsound-definite")
+                    } else if rec.stale_delayed_table && matches!(ans, MAnswer::None) {
+                        Some("slg:stale-delayed-answer-table")
                     } else {
                         None
                     };
